@@ -1063,10 +1063,13 @@ class PolyhedralTermList(TermList):  # noqa: WPS338
             if res["status"] != 0:
                 # The objective is bounded by the relaxed row itself, so "unbounded" can only be an
                 # artefact of the solver's presolve on badly scaled rows, and presolve also reports
-                # some feasible badly scaled systems as infeasible: solve again without it.
-                res = linprog(
+                # some feasible badly scaled systems as infeasible: solve again without it, and keep
+                # the first answer only if the second solve cannot decide.
+                retry = linprog(
                     c=objective, A_ub=a_opt, b_ub=b_opt, bounds=(None, None), options={"presolve": False}
                 )
+                if retry["status"] in {0, 2, 3}:
+                    res = retry
             if res["status"] == 0 and -res["fun"] <= b_temp[i] - 1:  # noqa: WPS309
                 # The row looks redundant. With large constants the relaxation by 1 is close to the
                 # resolution of the presolved solve, so confirm the optimum without presolve before
@@ -1150,8 +1153,11 @@ class PolyhedralTermList(TermList):  # noqa: WPS338
 
             res = linprog(c=objective, A_ub=a_opt, b_ub=b_opt, bounds=(None, None))  # ,options={'tol':0.000001})
             if res["status"] != 0:
-                # presolve reports some feasible badly scaled systems as infeasible
-                res = linprog(c=objective, A_ub=a_opt, b_ub=b_opt, bounds=(None, None), options={"presolve": False})
+                # presolve reports some feasible badly scaled systems as infeasible; the first answer
+                # stands only if the second solve cannot decide
+                retry = linprog(c=objective, A_ub=a_opt, b_ub=b_opt, bounds=(None, None), options={"presolve": False})
+                if retry["status"] in {0, 2, 3}:
+                    res = retry
             b_temp -= 1
             if res["status"] == 2:
                 is_refinement = False
@@ -1195,8 +1201,11 @@ class PolyhedralTermList(TermList):  # noqa: WPS338
         objective = np.zeros((1, m))
         res = linprog(c=objective, A_ub=a, b_ub=b, bounds=(None, None))  # ,options={'tol':0.000001})
         if res["status"] != 0:
-            # presolve reports some feasible badly scaled systems as infeasible
-            res = linprog(c=objective, A_ub=a, b_ub=b, bounds=(None, None), options={"presolve": False})
+            # presolve reports some feasible badly scaled systems as infeasible; the first answer
+            # stands only if the second solve cannot decide
+            retry = linprog(c=objective, A_ub=a, b_ub=b, bounds=(None, None), options={"presolve": False})
+            if retry["status"] in {0, 2, 3}:
+                res = retry
         # Linprog's status values
         # 0 : Optimization proceeding nominally.
         # 1 : Iteration limit reached.
